@@ -290,6 +290,31 @@ def _(o, rng):
     return both(VALID)
 
 
+@edit("cdir-default-mixed-spelling")
+def _(o, rng):
+    """the default content directory spelled out in some inventories and omitted in others (root + head copy one way,
+    one or two earlier version inventories the other way): the same value everywhere, a valid object (3.5.1: the
+    default applies when the key is absent)"""
+    pv = prior_versions(o)
+    if not pv or jget(o.t, "contentDirectory", "content") != "content":
+        return None
+    root_has = jget(o.t, "contentDirectory") is not None
+    done = False
+    for v in rng.choice(subsets12(pv)):
+        t = vinv_load(o, v)
+        has = jget(t, "contentDirectory") is not None
+        if has == root_has:
+            if has:
+                jdel(t, "contentDirectory")
+            else:
+                jset(t, "contentDirectory", "content")
+            vinv_save(o, v, t)
+            done = True
+    if not done:
+        return None
+    return both(VALID)
+
+
 @edit("version-skip")
 def _(o, rng):
     vk = o.vkeys()
